@@ -10,6 +10,19 @@ import shutil
 
 _dir = None
 _n = 0
+_CHARDEVS = set()  # paths whose node is a character special file (re-plugging keeps the kind, also after an unplug)
+
+
+def chardev_possible():
+    import stat
+
+    p = os.path.join(base(), "mknod-probe")
+    try:
+        os.mknod(p, 0o600 | stat.S_IFCHR, os.makedev(1, 3))
+        os.unlink(p)
+        return True
+    except OSError:
+        return False
 
 
 def base():
@@ -33,6 +46,13 @@ def new_node(name=None, link=False):
     global _n
     _n += 1
     p = os.path.join(base(), name or "sg%d" % _n)
+    if link == "chardev":
+        # a real character special file (what /dev/sg* are); every node made for this path has the same device number,
+        # as the replacement of a re-plugged unit usually has
+        import stat
+
+        os.mknod(p, 0o600 | stat.S_IFCHR, os.makedev(1, 3))
+        return p
     if link:
         t = p + ".t%d" % _n
         with open(t, "wb") as f:
@@ -49,6 +69,14 @@ def replug(path):
     rename over it.  Symlink: create a new target and atomically re-point the link; the old target keeps existing."""
     global _n
     _n += 1
+    import stat
+
+    if os.path.exists(path) and stat.S_ISCHR(os.lstat(path).st_mode) or path in _CHARDEVS:
+        _CHARDEVS.add(path)
+        tmp = path + ".new%d" % _n
+        os.mknod(tmp, 0o600 | stat.S_IFCHR, os.makedev(1, 3))
+        os.rename(tmp, path)
+        return os.stat(path).st_ino
     if os.path.islink(path):
         t = path + ".t%d" % _n
         with open(t, "wb") as f:
